@@ -34,6 +34,22 @@ def parse_case(c):
     return T.TreeCase(d, 1, H, B, mode, [nums[j * d:(j + 1) * d] for j in range(N)]), k, stop
 
 
+def case_text_tsm(d, H, B, mode, k, stop, snums, tnums):
+    return "execpertsm %d %d %d %d %d %d %d %s %d %s" % (d, H, B, mode, k, stop, len(snums), " ".join(str(x) for p in snums for x in p),
+                                                         len(tnums), " ".join(str(x) for p in tnums for x in p))
+
+
+def parse_case_tsm(c):
+    t = c.split()
+    d, H, B, mode, k, stop, ns = (int(x) for x in t[1:8])
+    sn = [int(x) for x in t[8:8 + ns * d]]
+    nt = int(t[8 + ns * d])
+    tn = [int(x) for x in t[9 + ns * d:]]
+    S = T.TreeCase(d, 1, H, B, mode, [sn[j * d:(j + 1) * d] for j in range(ns)])
+    Tg = T.TreeCase(d, 1, H, B, mode, [tn[j * d:(j + 1) * d] for j in range(nt)])
+    return S, Tg, k, stop
+
+
 def canon_line(x):
     """impl or model call line -> canonical tuple"""
     c = A.parse_call(x) if not x.startswith("T") else None
@@ -136,6 +152,49 @@ def run(tier, seed):
 
         vlib.differential(rep, binary, cases, sdir, "per", canon=canon, oracle=oracle,
                           nontrivial=lambda c, i: "t=10" in i, clause=lambda c: "per:d%s:k%s" % (c.split()[1], c.split()[5]))
+        # ---- target/source variant with TbfAlgorithmPeriodicTopTreeTsm ----
+        tcases = []
+        for _ in range(60 if tier == "quick" else 3000):
+            d = rng.choice([1, 2, 2, 3])
+            H = rng.range(2, {1: 5, 2: 4, 3: 3}[d])
+            sn = T.gen_positions(rng, d, H, rng.choice([1, 3, rng.range(4, 40)]), rng.choice(T.KINDS))
+            tn = T.gen_positions(rng, d, H, rng.choice([1, 3, rng.range(4, 40)]), rng.choice(T.KINDS))
+            k = rng.choice([-1, 0, 1, 2, 3] if d < 3 else [-1, 0, 1, 2])
+            tcases.append(case_text_tsm(d, H, rng.choice([1, 2, 5, 1000]), rng.below(2), k, 1, sn, tn))
+
+        def canon_tsm(c, line):
+            if line.startswith(("ABORT", "MODEL", "?")):
+                return line
+            parts = line.split(" || ")
+            calls = Counter(x for x in (canon_line(l) for l in A.split_trace(parts[2])) if x is not None)
+            return (parts[0], parts[1], sorted(calls.items(), key=repr), parts[-1].strip())
+
+        def oracle_tsm(c, line):
+            S, Tg, k, stop = parse_case_tsm(c)
+            parts = line.split(" || ")
+            lo, hi, nrep = expected_interval(k)
+            calls = [A.parse_call(x) for x in A.split_trace(parts[2])]
+            for cl in calls:
+                t = cl.extra.get("t")
+                if t and int(t.split("/")[0]) >= 100:
+                    if int(t.split("/")[0]) != 100 + cl.level:
+                        return "top-tree %s called with level %d on the virtual cell of level %d" % (cl.op, cl.level, int(t.split("/")[0]) - 100)
+                    for a, code, lv in cl.srcs:
+                        if cl.op in ("M2M", "L2L") and lv is not None and lv >= 100 and not (0 <= code < (1 << S.d)):
+                            return "top-tree %s at level %d received child position code %d" % (cl.op, cl.level, code)
+            Rv = {}
+            for tok in parts[3].split()[1:]:
+                a, b = tok.split("="); Rv[int(a)] = int(b)
+            Sx = 1
+            for j in range(S.d):
+                Sx = (Sx * sum(chi1(j, s) for s in range(lo, hi + 1))) & M
+            W = sum(A.weight(p) for p in range(S.N)) & M
+            for p in range(Tg.N):
+                if Rv.get(p) != (W * Sx) & M:
+                    return "target %d accumulated %s; one contribution from every source image in [%d,%d]^%d is %d" % (p, Rv.get(p), lo, hi, S.d, (W * Sx) & M)
+            return None
+        vlib.differential(rep, binary, tcases, sdir, "pertsm", canon=canon_tsm, oracle=oracle_tsm, nontrivial=lambda c, i: "t=10" in i,
+                          clause=lambda c: "pertsm:d%s:k%s" % (c.split()[1], c.split()[5]))
         rep.coverage["rule"] = ("four-step periodic sequence, sequential executor + top tree, image-aware additive kernel; d=1..3, heights 2..6, extra levels -1..5 (d=3: -1..3), "
                                 "particles uniform/clustered/on wrap-around faces/lattice, all block sizes, both modes; non-trivial = top tree active (k>=0)")
         return rep.finish()
